@@ -54,6 +54,11 @@ func ShieldParamsProfile(seed int64, out *Recorder, nOps int) *Chain {
 		prop := paramproposal.NewParameterChangeProposal("pool parameters", "probe",
 			[]paramproposal.ParamChange{paramproposal.NewParamChange(shieldtypes.ModuleName, string(shieldtypes.ParamStoreKeyPoolParams), string(bz))})
 		line := D{"k": "sparams", "trial": i, "old": fmt.Sprint(old.Nanoseconds()), "new": fmt.Sprint(np.Nanoseconds()), "now": nsStr(ctx.BlockTime())}
+		// the change itself must leave the queue and the providers' books alone (C07P.period_change_does_not_touch_the_queue)
+		books := func() string {
+			return fmt.Sprint(sk.GetAllWithdraws(ctx), sk.GetAllProviders(ctx), sk.GetTotalCollateral(ctx), sk.GetTotalWithdrawing(ctx))
+		}
+		booksBefore := books()
 		var herr error
 		if pi := catch(func() { herr = handler(ctx, prop) }); pi != nil {
 			line["accepted"] = false
@@ -68,6 +73,7 @@ func ShieldParamsProfile(seed int64, out *Recorder, nOps int) *Chain {
 			continue
 		}
 		line["accepted"] = true
+		line["books_unchanged"] = booksBefore == books()
 		// a provider with free collateral
 		var who sdk.AccAddress
 		free := sdk.ZeroInt()
